@@ -55,17 +55,36 @@ def r2_2_message_type(ctx, prog):
     ctx.fn(info["body"])
     leaf = "top:value"
     done = 0
+
+    def method_word(pa, r):
+        """the u16 the method is made of: the argument of MessageMethod::try_from, or the field of a `MessageMethod(x)` literal
+        handed to MessageType::new / stored in the struct literal (the range check of try_from cannot fail on 12 bits)"""
+        mc = pa.calls_to(r"MessageMethod as std::convert::TryFrom<u16>>::try_from$")
+        if mc:
+            return C.expr_of(pa, mc[0][2][0])
+        nw = pa.calls_to(r"message::MessageType::new$")
+        m = None
+        if nw:
+            m = C.expr_of(pa, nw[0][2])[0]
+        elif isinstance(r, tuple) and r and r[0] == "MessageType":
+            names = [f["name"] for f in prog.adt(MT)["variants"][0]["fields"]]
+            if "method" in names and len(r) == len(names) + 1:
+                m = r[1 + names.index("method")]
+        if isinstance(m, tuple) and len(m) == 2 and m[0] == "MessageMethod":
+            return m[1]
+        return None
     for pa in paths:
         cc = pa.calls_to(r"MessageClass as std::convert::TryFrom<u8>>::try_from$")
         mc = pa.calls_to(r"MessageMethod as std::convert::TryFrom<u16>>::try_from$")
         nw = pa.calls_to(r"message::MessageType::new$")
         r = C.expr_of(pa, pa.ret)
         literal = isinstance(r, tuple) and r and r[0] == "MessageType" and not nw        # built with a struct literal
-        if not (cc and mc and (nw or literal)):
+        mw = method_word(pa, r)
+        if not (cc and mw is not None and (nw or literal)):
             continue
         done += 1
         cbits = B.evaluate(C.expr_of(pa, cc[0][2][0]), {leaf: 16})
-        mbits = B.evaluate(C.expr_of(pa, mc[0][2][0]), {leaf: 16})
+        mbits = B.evaluate(mw, {leaf: 16})
         expc = [("in", leaf, 4), ("in", leaf, 8)] + [0] * 14
         expm = [("in", leaf, i) for i in range(4)] + [("in", leaf, i) for i in range(5, 8)] + [("in", leaf, i) for i in range(9, 14)] + [0] * 4
         ctx.ob("R2.2", "decode:class-bits", cbits[:16] == expc, "class bits = %s" % B.describe(cbits, 8), info["where"])
@@ -85,7 +104,7 @@ def r2_2_message_type(ctx, prog):
         okall = bool(paths)
         for pa in paths:
             r = C.expr_of(pa, pa.ret)
-            mc = pa.calls_to(r"MessageMethod as std::convert::TryFrom<u16>>::try_from$")
+            mw = method_word(pa, r)
             pins = {}
             for op, a_, b_, v_ in pa.guards():
                 if op in ("Ne", "Eq") and b_ == 0:
@@ -96,12 +115,12 @@ def r2_2_message_type(ctx, prog):
                         continue
                 okall = False
             cls = next((c_ for c_ in order if ("MessageClass::%s" % c_) in repr(r)), None)
-            if set(pins) != {8, 4} or cls is None or not mc:
+            if set(pins) != {8, 4} or cls is None or mw is None:
                 okall = False
                 continue
             want_cls = order[2 * int(pins[8]) + int(pins[4])]
             seen_cls[want_cls] = cls
-            mbits = B.evaluate(C.expr_of(pa, mc[0][2][0]), {leaf: 16})
+            mbits = B.evaluate(mw, {leaf: 16})
             expm = [("in", leaf, i) for i in range(4)] + [("in", leaf, i) for i in range(5, 8)] + [("in", leaf, i) for i in range(9, 14)] + [0] * 4
             okall = okall and mbits[:16] == expm
         okall = okall and seen_cls == {c_: c_ for c_ in order}
@@ -549,6 +568,19 @@ def r2_7_u16_list(ctx, prog, rule="R2.7"):
                 modulus = a[2] + 1 if a[0] == "op:BitAnd" else a[2]
                 odd = (v == 1) if op == "Ne" else (v == 0)
                 form = (modulus, odd)
+        if form is None:
+            # `raw_value.chunks_exact(n).remainder().is_empty()`: by the std semantics the remainder holds len % n bytes
+            from .. import linproof as LP
+            for i2, e2 in enumerate(pa.log):
+                if e2[0] == "call" and re.search(r"slice::<impl \[u8\]>::is_empty$", e2[1]):
+                    src = LP.strip(C.expr_of(pa, e2[2], 0, i2)[0])
+                    if isinstance(src, tuple) and len(src) == 2 and isinstance(src[0], str) and src[0].endswith("ChunksExact::remainder"):
+                        ch = LP.strip(src[1])
+                        if isinstance(ch, tuple) and re.search(r"chunks_exact$", ch[0]) and len(ch) == 3 and isinstance(ch[2], int):
+                            root, lo, hi = LP.Lin().view(ch[1])
+                            got = pa.choice(r"%s$" % re.escape(e2[4].split("@")[-1]))
+                            if "raw_value" in repr(root) and lo == {} and got in (0, 1):
+                                form = (ch[2], got == 0)
         if form is None:
             seen["test"] = (False, "no length granularity test on this path (guards %s)" % (gs,))
             continue
